@@ -370,17 +370,27 @@ func gen(r *rand.Rand, thorough bool, caseNo int) []string {
 				emit("wait " + anyClient())
 			}
 		}
-		// out-of-phase noise
-		if r.Intn(7) == 0 {
+		// out-of-phase noise: transactions that would be accepted if only their phase test were missing
+		if r.Intn(5) == 0 {
 			switch r.Intn(4) {
 			case 0:
-				emit(fmt.Sprintf("mpk %s %d", anyMiner(), st.T))
+				if phase != 1 && len(dkg) > 0 {
+					emit(fmt.Sprintf("mpk %s %d as=x%d", pick(r, dkg), st.T, r.Intn(2)))
+				} else {
+					emit(fmt.Sprintf("mpk %s %d", anyMiner(), st.T))
+				}
 			case 1:
-				if len(mpkIDs) > 0 || phase != 3 {
+				if phase != 3 && len(mpkIDs) > 0 {
+					emit(fmt.Sprintf("sos %s %d valid", pick(r, mpkIDs), len(dkg)))
+				} else if len(mpkIDs) > 0 || phase != 3 {
 					emit(fmt.Sprintf("sos %s 0 valid", anyMiner()))
 				}
 			case 2:
-				emit("wait " + anyClient())
+				if phase != 4 && len(dkg) > 0 {
+					emit("wait " + pick(r, dkg))
+				} else {
+					emit("wait " + anyClient())
+				}
 			case 3:
 				emit(fmt.Sprintf("keep %s s%d", anyClient(), r.Intn(nSharderKeys)))
 			}
